@@ -43,8 +43,14 @@ func init() {
 // SetCrashPoint arms the fault: the process exits with status 137 at the n-th write unit from now on counted from process start.
 func SetCrashPoint(n int64, when string) { crashAt, crashWhen = n, when }
 
+// SchedPoint, if set, is called before every store operation (the controlled scheduler's yield).
+var SchedPoint func(kind string)
+
 // write brackets one atomic write unit.
 func write(kind string, f func() error) error {
+	if SchedPoint != nil {
+		SchedPoint(kind)
+	}
 	n := atomic.AddInt64(&WriteCount, 1)
 	if WriteTrace != nil {
 		WriteTrace(n, kind)
@@ -102,6 +108,30 @@ func (db *VKV) Equal(c dvid.StoreConfig) bool {
 	return db.BadgerDB.Equal(inner)
 }
 
+func (db *VKV) Get(ctx storage.Context, tk storage.TKey) ([]byte, error) {
+	if SchedPoint != nil {
+		SchedPoint("Get")
+	}
+	return db.BadgerDB.Get(ctx, tk)
+}
+func (db *VKV) GetRange(ctx storage.Context, a, b storage.TKey) ([]*storage.TKeyValue, error) {
+	if SchedPoint != nil {
+		SchedPoint("GetRange")
+	}
+	return db.BadgerDB.GetRange(ctx, a, b)
+}
+func (db *VKV) KeysInRange(ctx storage.Context, a, b storage.TKey) ([]storage.TKey, error) {
+	if SchedPoint != nil {
+		SchedPoint("KeysInRange")
+	}
+	return db.BadgerDB.KeysInRange(ctx, a, b)
+}
+func (db *VKV) ProcessRange(ctx storage.Context, a, b storage.TKey, op *storage.ChunkOp, f storage.ChunkFunc) error {
+	if SchedPoint != nil {
+		SchedPoint("ProcessRange")
+	}
+	return db.BadgerDB.ProcessRange(ctx, a, b, op, f)
+}
 func (db *VKV) Put(ctx storage.Context, tk storage.TKey, v []byte) error {
 	return write("Put", func() error { return db.BadgerDB.Put(ctx, tk, v) })
 }
